@@ -114,7 +114,7 @@ def standard(run, prop, theorems, imports, fam, gen_cases, to_coq, n, nontrivial
     if replay:
         r = json.load(open(replay))
         cases = [r["case"]] if "case" in r else r.get("cases", [])
-        vlib.build_harness()
+        vlib.build_harness(fam)
         outs, bc, bo, failed, err = evaluate(prop, imports, fam, to_coq, cases, tag="replaycases")
         for i, c in enumerate(cases):
             print(json.dumps({"case": c, "impl": outs[i], "model_agrees": i not in bc and i not in failed,
@@ -129,7 +129,7 @@ def standard(run, prop, theorems, imports, fam, gen_cases, to_coq, n, nontrivial
     for pr in pl["problems"]:
         log("proof-leg problem:", pr["kind"], pr["detail"][:400])
     # ---- build + generate
-    build_s = vlib.build_harness()
+    build_s = vlib.build_harness(fam)
     corpus = load_corpus(prop)
     cases = corpus + gen_cases(run, n)
     outs, bad_check, bad_oracle, failed, err = evaluate(prop, imports, fam, to_coq, cases)
